@@ -246,6 +246,8 @@ func traverseRegularProperty(property path.Property, t traversal, fetchNodes boo
 		panic(err)
 	}
 
+	// the IRI goes between double quotes in the generated code (a backslash is legal in a property name)
+	propertyIri = misc.RegoStringContent(propertyIri)
 	if property.Inverse {
 		t.rego = append(t.rego, fmt.Sprintf("search_subjects[%s] with data.predicate as \"%s\" with data.object as %s", binding, propertyIri, source))
 	} else {
@@ -296,6 +298,7 @@ func traverseCustomProperty(property path.Property, t traversal, fetchNodes bool
 	}
 	source := t.pathVariables[len(t.pathVariables)-1]
 
+	customPropertyName = misc.RegoStringContent(customPropertyName)
 	if property.Inverse {
 		t.rego = append(t.rego, fmt.Sprintf("search_custom_property_subjects[%s] with data.property_extension as \"%s\" with data.object as %s", binding, customPropertyName, source))
 	} else {
